@@ -422,11 +422,19 @@ def pop_until_exhausted_rule(r, ctx):
     if some_t is None:
         raise AnchorMissing("MapEventQueue::pop: the result of WriteQueues::pop is not examined")
     answers = {i for i, j, p_, rv, line in b.assigns() if p_[0] == 0 and not p_[1] and describe_rvalue(b, rv).startswith("Option::Some(")}
+    # `if response.is_some() { break response }`: a value handed back where it is known to be Some
+    from mirlib import dom_guards, describe_operand
+    for i, j, p_, rv, line in b.assigns():
+        if p_[0] == 0 and not p_[1] and rv[0] == "use" and rv[1][0] in ("c", "m"):
+            dv = describe_operand(b, rv[1])
+            for d, l, _ in dom_guards(b, i):
+                if (d == "is_some(%s)" % dv and l == "true") or (d == "is_none(%s)" % dv and l == "false") or (d == "disc(%s)" % dv and l == "Some"):
+                    answers.add(i)
     ok, wit = b.must_pass([some_t], answers, targets=set(b.exits()))
     # going round the loop (back to the inner pop) is the other legitimate way to leave an arm: exclude paths through the loop head
     if not ok:
         ok = b.path_avoiding([some_t], set(b.exits()), avoid=answers | {inner[0].block}) is None
-    r.check(ok and len(answers) >= 3, "MapEventQueue::pop/none-only-when-exhausted", inner[0].loc(), "after an entry was taken from the queues the function answers Some(..) or takes the next entry (%d answers)" % len(answers),
+    r.check(ok and len(answers) >= 1, "MapEventQueue::pop/none-only-when-exhausted", inner[0].loc(), "after an entry was taken from the queues the function answers Some(..) or takes the next entry (%d answers)" % len(answers),
             "an entry taken from the queues can end the function with None (path %s): write_to_buffer reports NoData although events are still queued, the lane leaves the dirty set and a pending Remove / Clear / Synced is never written" % (wit,))
     return b
 
@@ -529,6 +537,61 @@ def in_variant(b, block, place, variant, gs=None):
             if has_place and has_var and (l == "true") == (m.group(1) == "eq"):
                 return True
     return False
+
+
+def callback_calls(crate, b):
+    """Calls made *on behalf of* body b at a higher-order call site: [(site block, Call-like)] for (1) the calls inside a closure that b builds and
+    hands to that call (`iter.for_each(|q| q.remove(key))`), and (2) a function passed by name (`for_each(SyncQueue::clear)`), represented by a Call
+    whose callee is that function and whose arguments are unknown. The block is the block of the higher-order call in b, so guards and dominance are
+    those of the place where the callback is handed over."""
+    from mirlib import Call, op_place
+    out = []
+    clos = {cb.defpath: cb for cb in crate.closures_of(b.defpath)}
+    for c in b.calls:
+        for a in c.args:
+            if a[0] == "k" and isinstance(a[1], dict) and isinstance(a[1].get("fn"), dict):
+                out.append((c.block, Call(b, c.block, {"callee": a[1]["fn"], "args": [], "dest": None, "t": None, "u": None, "line": c.line})))
+            pl = op_place(a)
+            if pl is None:
+                continue
+            for df in b.defs.get(pl[0], ()):
+                if df[0] == "assign" and df[3][0] == "agg" and df[3][1].get("closure") in clos:
+                    for x in clos[df[3][1]["closure"]].calls:
+                        out.append((c.block, x))
+    return out
+
+
+def success_edge(b, call, variant=None):
+    """The block entered when the result of `call` (an Option / Result) holds a value - however it is examined: `match`, `if let`, `let else`, `?`."""
+    for si in b.result_switches(call):
+        ve = b.variant_edges(si["block"]) or {}
+        for v in ([variant] if variant else ["Some", "Ok"]):
+            if v in ve:
+                return ve[v]
+    te = b.try_edges(call)
+    if te is not None:
+        return te[0]
+    return None
+
+
+def guards_with_sources(b, block, control=False):
+    """[(description, label, switch block, text)]: the tests that hold at `block` together with a text naming what flows into the tested value (the
+    calls with their arguments, fields and constants it is computed from). A value that is chosen among several (the result of a spliced helper with an
+    early return, a hoisted `let`) has no description of its own; what it was computed from says what the test is about."""
+    from mirlib import guards, dom_guards, describe_operand
+    out = []
+    for d, l, sb in (guards(b, block) if control else dom_guards(b, block)):
+        t = b.term(sb)
+        txt = [d]
+        if t.get("k") == "switch":
+            for x in b.sources(t["discr"], stop_at_calls=False):
+                if x[0] == "call":
+                    c = x[1]
+                    txt.append("%s(%s)" % (c.via_name or c.name or "?", ", ".join(describe_operand(b, a) for a in c.args)))
+                elif x[0] in ("field", "const"):
+                    txt.append(str(x[1]))
+        out.append((d, l, sb, " ".join(txt)))
+    return out
 
 
 def guard_mentions(b, block, needles, control=True):
